@@ -66,6 +66,10 @@ def handler_block_use(h: Func) -> Tuple[Set[str], Set[str], str]:
     return read, bound, sp
 
 
+def _is_empty_list(v) -> bool:
+    return (isinstance(v, (ast.List, ast.Tuple)) and not v.elts) or (isinstance(v, ast.Call) and isinstance(v.func, ast.Name) and v.func.id == "list" and not v.args)
+
+
 def run(model: RepoModel, rep, tier: str):
     rep.not_decided = ("that the edge set equals each language's control flow for each construct (where `continue` in a C-style for "
                        "lands, while-else labelling, labelled break/continue, goto), exceptions as implicit edges")
@@ -80,7 +84,7 @@ def run(model: RepoModel, rep, tier: str):
     rep.rule("C04.R1", "every body a frontend attaches to a control statement is read into the CFG by that statement's handler and is "
                        "covered by the boundary the handler returns (or laid out before a covered body)", min_instances=60)
     rep.rule("C04.R2", "every operation that owns a body and branches or loops has a CFG handler (or is dispatched by name inside one)", 10)
-    rep.rule("C04.R3", "sentinel discipline: a negative boundary means 'control does not continue'; a handler that can return a negative "
+    rep.rule("C04.R3", "walker discipline: every row of a block is visited exactly once; a negative boundary means 'control does not continue'; a handler that can return a negative "
                        "boundary together with a live frontier must not make the block walker drop the rest of the block", 2)
     rep.rule("C04.R4", "break/continue/return plumbing: loop handlers create a fresh special list, pass it to the body and resolve it; "
                        "return links to the exit and cuts the frontier; analyze() links the final frontier to the exit", 6)
@@ -208,6 +212,37 @@ def run(model: RepoModel, rep, tier: str):
                           f"(`if (a) {{}}`, `while (p) {{}}`): every statement after it is missing from the CFG")
         else:
             rep.holds("C04.R3", key, FILE, cfg.stmt[t].lineno, "the walker only stops when the frontier is empty; otherwise it steps over the statement")
+
+    # the walker visits every row exactly once: inside its loop the position only moves to `<position> + 1` (a statement without a
+    # handler) or to `<boundary> + 1`, and the boundary is what the handler claimed or, for a statement without blocks, the statement's
+    # own position -- any other arithmetic skips a row (a statement missing from the CFG) or visits one twice
+    for w in walkers:
+        fr_v, bd_v = roles[w.name]
+        loops_w = [L for L in walk_no_nested(w.node) if isinstance(L, ast.While) and any(
+            isinstance(x, ast.Assign) and isinstance(x.targets[0], ast.Tuple) and any(isinstance(e, ast.Name) and e.id == bd_v for e in x.targets[0].elts)
+            for x in ast.walk(L))]
+        key = f"{FILE}::{w.qualname}::the position advances by exactly what was handled"
+        if not loops_w or not (isinstance(loops_w[0].test, ast.Compare) and isinstance(loops_w[0].test.left, ast.Name)):
+            rep.unknown("C04.R3", key, FILE, w.node.lineno, "walker loop not recognised")
+            continue
+        L = loops_w[0]
+        pos_v = L.test.left.id
+        bad = []
+        for x in ast.walk(L):
+            if isinstance(x, ast.Assign) and len(x.targets) == 1 and isinstance(x.targets[0], ast.Name):
+                t_, v_ = x.targets[0].id, norm(x.value)
+                if t_ == bd_v and v_ != pos_v:
+                    bad.append((x.lineno, f"`{norm(x)}`: a statement without blocks ends at its own position `{pos_v}`"))
+                if t_ == pos_v and v_ not in (f"{bd_v} + 1", f"1 + {bd_v}", f"{pos_v} + 1", f"1 + {pos_v}"):
+                    bad.append((x.lineno, f"`{norm(x)}`: the next position is `{bd_v} + 1` or `{pos_v} + 1`"))
+            if isinstance(x, ast.AugAssign) and isinstance(x.target, ast.Name) and x.target.id in (pos_v, bd_v):
+                if not (x.target.id == pos_v and isinstance(x.op, ast.Add) and isinstance(x.value, ast.Constant) and x.value.value == 1):
+                    bad.append((x.lineno, f"`{norm(x)}`: the position moves one row at a time"))
+        if bad:
+            rep.violation("C04.R3", key, FILE, bad[0][0], f"{w.qualname}: " + "; ".join(b for _, b in bad)
+                          + " -- a row of the block is skipped (the statement is no CFG node and has no edges) or handled twice")
+        else:
+            rep.holds("C04.R3", key, FILE, L.lineno, f"position `{pos_v}` moves to `{pos_v} + 1` or `{bd_v} + 1`; `{bd_v}` is a handler result or `{pos_v}`")
 
     # ------------------------------------------------------------------ R4
     dl = cfa.methods.get("deal_with_last_stmts_of_loop_body")
@@ -383,6 +418,40 @@ def run(model: RepoModel, rep, tier: str):
             if not later and not in_same_loop:
                 probs.append((last.lineno, f"the frontier `{v}` (last assigned at line {last.lineno}) is not used afterwards: control leaving that "
                                            f"sub-block goes nowhere"))
+        # (e) path-sensitive form of (b): on EVERY path from the point where a frontier is obtained to the handler's exit (or to the
+        #     point where the variable is overwritten) the frontier is read -- linked, passed on as a parent list, merged into another
+        #     frontier or returned.  A frontier that is only read on some paths leaves the exits of that sub-block dangling on the others.
+        hcfg = cfg_of(h.node)
+        use_nodes: Dict[str, Set[int]] = {}
+        def_nodes: Dict[str, Set[int]] = {}
+        for n_ in hcfg.g.nodes:
+            for e_ in hcfg.exprs_at(n_):
+                for x in ast.walk(e_):
+                    if isinstance(x, ast.Name) and x.id in frontier_vars:
+                        (use_nodes if isinstance(x.ctx, ast.Load) else def_nodes).setdefault(x.id, set()).add(n_)
+        for v in sorted(frontier_vars):
+            if v in h.params:
+                continue
+            for d_ in sorted(def_nodes.get(v, ())):
+                st_ = hcfg.stmt.get(d_)
+                if not isinstance(st_, ast.Assign):
+                    continue
+                # obligations arise where a frontier comes back from a sub-block or is derived from one, not from `[current_stmt]`
+                if not any((isinstance(x, ast.Call) and is_self_attr(x.func) and x.func.attr in ("analyze_block", "analyze_init_block", dl.name))
+                           or (isinstance(x, ast.Name) and x.id in frontier_vars and isinstance(x.ctx, ast.Load)) for x in ast.walk(st_.value)):
+                    continue
+                if not hcfg.is_reachable(d_):
+                    continue
+                uses_ = use_nodes.get(v, set()) - {d_}
+                targets_ = [hcfg.EXIT] + sorted(def_nodes[v] - {d_})
+                for t_ in targets_:
+                    path = hcfg.path_avoiding(d_, t_, uses_ | (def_nodes[v] - {d_, t_}))
+                    if path is not None and not (t_ != hcfg.EXIT and t_ in use_nodes.get(v, set())):
+                        where = "the handler returns" if t_ == hcfg.EXIT else f"`{v}` is overwritten at line {hcfg.stmt[t_].lineno}"
+                        probs.append((st_.lineno, f"the frontier `{v}` obtained at line {st_.lineno} is not read on the path "
+                                                  f"{' -> '.join(hcfg.describe_path(path)[:8])} before {where}: the statements that end that "
+                                                  f"sub-block get no successor on that path"))
+                        break
         # (c) forward iteration over a list the loop body mutates
         for n in walk_no_nested(h.node):
             if isinstance(n, ast.For) and isinstance(n.iter, ast.Name):
@@ -500,6 +569,15 @@ def run(model: RepoModel, rep, tier: str):
                           f"instead and loses its only outgoing edge")
         else:
             rep.holds("C04.R8", key, FILE, dcfg.stmt[lf[0]].lineno, f"nothing is added to the result after the LOOP_FALSE node; popped by {consumers[0][0].name}")
+
+    # ------------------------------------------------------------------ R9 every clause of a control statement reaches the GIR
+    from .. import generic2
+    CONTROL_KEYS = ("if_stmt", "while_stmt", "dowhile_stmt", "for_stmt", "forin_stmt", "for_value_stmt", "try_stmt", "catch_clause", "switch_stmt",
+                    "case_stmt", "default_stmt", "with_stmt", "match_stmt", "elif_clause", "else_clause", "finally_clause", "catch_body", "final_body")
+    rep.rule("C04.R9", "every clause of a control statement reaches the GIR: what a frontend computes for each clause in a loop over the clauses "
+                       "(one catch clause, one case, one elif arm) is attached inside that iteration, not once after the loop for the last clause only", 12)
+    generic2.check_per_iteration_values(model, rep, "C04.R9", [m.rel for lg, m in gir.frontend_modules(model, langs)],
+                                        func_filter=generic2.emits(CONTROL_KEYS))
 
     # ------------------------------------------------------------------ R7 (cross-cutting accumulator discipline, sa/generic.py)
     from ..generic import check_accumulators
